@@ -5,7 +5,6 @@ use vstd::prelude::*;
 verus! {
 
 // ---- environment prelude (assumed contracts on bitcoin_hashes) ----
-pub uninterp spec fn compress(l: Seq<u8>, r: Seq<u8>) -> Seq<u8>;
 
 pub mod sha256 {
     use vstd::prelude::*;
@@ -39,37 +38,7 @@ fn sha256midstate(left: &[u8], right: &[u8]) -> (r: sha256::Midstate)
     ensures r@ == compress(left@, right@)
 { unimplemented!() }
 
-// =====================================================================
-// SPECIFICATION (definitional merkle tree, written from the English text)
-// =====================================================================
-
-/// The leaves as a sequence of byte sequences.
-pub open spec fn leaf_seq(leaves: Seq<[u8; 32]>) -> Seq<Seq<u8>> {
-    leaves.map_values(|l: [u8; 32]| l@)
-}
-
-/// One level up: pair adjacent nodes left to right; an unpaired last node is
-/// promoted unchanged.
-pub open spec fn level_up(s: Seq<Seq<u8>>) -> Seq<Seq<u8>> {
-    Seq::new(
-        ((s.len() + 1) / 2) as nat,
-        |i: int| if 2 * i + 1 < s.len() { compress(s[2 * i], s[2 * i + 1]) } else { s[2 * i] },
-    )
-}
-
-/// Merkle root: empty -> 32 zero bytes; single node -> that node; otherwise
-/// the root of the next level.
-pub open spec fn mroot(s: Seq<Seq<u8>>) -> Seq<u8>
-    decreases s.len()
-{
-    if s.len() == 0 {
-        Seq::new(32, |i: int| 0u8)
-    } else if s.len() == 1 {
-        s[0]
-    } else {
-        mroot(level_up(s))
-    }
-}
+//@include inc/mroot_spec.rs
 
 // =====================================================================
 // SPEC SANITY EXAMPLES (concrete trees, proved from the definition alone)
